@@ -4,6 +4,7 @@ import (
 	"fmt"
 	"sort"
 	"strings"
+	"time"
 )
 
 // Failure is a violated, named invariant.
@@ -81,6 +82,10 @@ type RunCtx struct {
 	Status *StatusPage
 	// Events cap: exceeding it is a harness error unless a scenario says otherwise.
 	MaxEvents uint64
+	// Deadline, if set, aborts the execution (CandidateTimeout) once passed. It
+	// is set ONLY for shrink candidates during minimisation — a candidate that
+	// would take too long is simply not used; a real run never has a deadline.
+	Deadline time.Time
 	// RunStats: per-run facts the scenario reports for the non-triviality rule.
 	LibCalls    int
 	FaultsFired int
@@ -120,6 +125,9 @@ func (c *RunCtx) Ev(task int, kind string, a ...int64) {
 		}
 		c.Lines = append(c.Lines, b.String())
 	}
+	if c.Seq&255 == 0 && !c.Deadline.IsZero() && time.Now().After(c.Deadline) {
+		panic(CandidateTimeout{})
+	}
 	if c.Seq > c.MaxEvents {
 		panic(HarnessError{fmt.Sprintf("event cap %d exceeded", c.MaxEvents)})
 	}
@@ -137,6 +145,9 @@ func (c *RunCtx) EvS(task int, kind string, s string, a ...int64) {
 }
 
 func (c *RunCtx) Fingerprint() uint64 { return c.hash }
+
+// CandidateTimeout is panicked by Ev when a shrink candidate exceeds its deadline.
+type CandidateTimeout struct{}
 
 // HarnessError is panicked for conditions that are the harness's fault (exit 2),
 // never a property violation.
